@@ -28,7 +28,8 @@ SW_W = [1, 2, 4, 8]                 # sliding window: powers of two, not wider t
 COMB_W = {8: [1, 2, 3, 4, 5, 6, 8], 16: [1, 2, 3, 4, 5, 8, 9], 32: [1, 2, 3, 4, 5, 8, 9], 64: [1, 2, 3, 4, 5, 8, 9]}
 
 # synthetic curves (index in tiny_curves.h)
-TINY_ALL = 0xFFF
+TINY_ALL = 0x3FFF
+TINY_2POWER = (1 << 5) | (1 << 12) | (1 << 13)            # cyclic 2-part of order 4 / 16 / 32: points of order 2^k
 TINY_QUICK = (1 << 0) | (1 << 3) | (1 << 5) | (1 << 11)   # A_M3 prime order; a=0; cofactor 4 with order-4 points; 16-bit cofactor 2
 # built-in curves (index in ec_curve_str[])
 REAL_ALL = 0xFFFFFFFF
@@ -92,6 +93,10 @@ def quick_configs():
     q('jacMR', 8,  ('C2', 5),    ('C1', 3),    'INTER')
     q('jacMR', 64, ('C2', 9),    ('C1', 2),    'INTER')      # what tests/ecdsa/main.c compiles
     q('jacMR', 16, ('C1', 2),    ('C2', 2),    'BIN')
+    # repeated doubling on points of order 2^k: y reaches 0 in the last of the n doublings for n = window width / comb columns
+    for coord, digit, fxp, unk in (('jacR', 8, ('SW', 1), ('SW', 1)), ('jacMR', 64, ('C2', 4), ('SW', 2)), ('jacR', 8, ('C2', 4), ('C2', 4)),
+                                   ('jacMR', 8, ('SW', 4), ('SW', 4)), ('jacR', 64, ('C1', 3), ('C1', 3))):
+        c.append(mk('q2p', coord, digit, fxp, unk, 'BIN', T_UNK | T_BP | T_ADD, TINY_2POWER, 0))
     return c + probe_configs('qprobe')[:1]
 
 
